@@ -1,5 +1,6 @@
 import Model.Broker
 import Proofs.Session
+import Proofs.SessionFresh
 /-
   Proofs/BrokerOut.lean — helper lemmas for the outbound side of the broker model
   (properties C08, C15, C16): association lists, connection / session accessors, membership in
@@ -322,14 +323,14 @@ def finishQ0 (s : BState) (c : ConnId) (x : BConn) (bq : BSess) : BState :=
 
 /-- state after delivering a QoS 1/2 message: id allocated, packet saved, token kept -/
 def finishQ12 (s : BState) (c : ConnId) (x : BConn) (bq : BSess) (m : Message) (id : UInt16) : BState :=
-  (s.setSessOf c { bq with sess := (bq.sess.nextID.2).savePacket .outgoing (.publish m false id) }).setConn c
+  (s.setSessOf c { bq with sess := (bq.sess.freshID.2).savePacket .outgoing (.publish m false id) }).setConn c
     (retake { x with deqHand := false })
 
 /-- outcome of the dequeuer's bookkeeping after the pop -/
 def Finished (s : BState) (c : ConnId) (x : BConn) (bq : BSess) (m : Message) (id : UInt16)
     (s' : BState) : Prop :=
   (m.qos = 0 ∧ id = 0 ∧ s' = finishQ0 s c x bq) ∨
-  (m.qos ≠ 0 ∧ bq.sess.nextID.1 = id ∧ s' = finishQ12 s c x bq m id)
+  (m.qos ≠ 0 ∧ (bq.sess.freshID.1 ≠ 0 ∧ bq.sess.freshID.1 = id) ∧ s' = finishQ12 s c x bq m id)
 
 theorem acceptDelivery_cases {s : BState} {c : ConnId} {x : BConn} {b : BSess} {m : Message}
     {id : UInt16} {s' : BState} (h : acceptDelivery s c x b m id = some s') :
@@ -346,8 +347,9 @@ theorem acceptDelivery_cases {s : BState} {c : ConnId} {x : BConn} {b : BSess} {
         else some ((s.setSessOf c bq).setConn c
           (retake { x with deqHand := false, deqChan := min s.cfg.window (x.deqChan + 1) }))
       else
-        if bq.sess.nextID.1 ≠ id then none
-        else some ((s.setSessOf c { bq with sess := (bq.sess.nextID.2).savePacket .outgoing (.publish m false id) }).setConn c
+        if bq.sess.freshID.1 = 0 then none else
+        if bq.sess.freshID.1 ≠ id then none
+        else some ((s.setSessOf c { bq with sess := (bq.sess.freshID.2).savePacket .outgoing (.publish m false id) }).setConn c
           (retake { x with deqHand := false }))) = some s' → Finished s c x bq m id s' := by
     intro bq hf
     by_cases hq : m.qos = 0
@@ -357,9 +359,12 @@ theorem acceptDelivery_cases {s : BState} {c : ConnId} {x : BConn} {b : BSess} {
         exact Or.inl ⟨hq, hi, hf.symm⟩
       · simp [hi] at hf
     · rw [if_neg hq] at hf
-      by_cases hi : bq.sess.nextID.1 = id
+      by_cases hz : bq.sess.freshID.1 = 0
+      · rw [if_pos hz] at hf; cases hf
+      rw [if_neg hz] at hf
+      by_cases hi : bq.sess.freshID.1 = id
       · simp only [hi, ne_eq, not_true_eq_false, if_false, Option.some.injEq] at hf
-        exact Or.inr ⟨hq, hi, hf.symm⟩
+        exact Or.inr ⟨hq, ⟨hz, hi⟩, hf.symm⟩
       · simp [hi] at hf
   split at h
   · -- from the stored queue
@@ -438,8 +443,9 @@ theorem observeSent_cases {s : BState} {c : ConnId} {p : Packet} {s' : BState}
 /-- bookkeeping of the dying dequeuer for the message it popped -/
 def lastTake (s : BState) (c : ConnId) (bq : BSess) (out : Message) : BState :=
   if out.qos = 0 then s.setSessOf c bq
+  else if bq.sess.freshID.1 = 0 then s.setSessOf c { bq with sess := bq.sess.freshID.2 }
   else s.setSessOf c { bq with sess :=
-    (bq.sess.nextID.2).savePacket .outgoing (.publish out false bq.sess.nextID.1) }
+    (bq.sess.freshID.2).savePacket .outgoing (.publish out false bq.sess.freshID.1) }
 
 theorem lastDequeue_cases {s : BState} {c : ConnId} {x : BConn} {s1 : BState}
     (h : s1 ∈ lastDequeue s c x) :
